@@ -9,6 +9,12 @@ except ImportError:
                            "/opt/veriftools/wheels", "hypothesis"])
 import bisturi
 print("bisturi from", bisturi.__file__)
+# atheris (coverage-guided fuzzing, used by the C04 check) goes to /verif/.deps; optional: the check says so when it is missing
+import os
+deps = os.path.join(os.path.dirname(os.path.dirname(os.path.abspath(__file__))), ".deps")
+if not os.path.isdir(os.path.join(deps, "atheris")):
+    r = subprocess.call([sys.executable, "-m", "pip", "install", "--no-index", "--find-links", "/opt/veriftools/wheels", "--target", deps, "atheris"])
+    print("atheris install rc", r)
 
 # the reference model must reproduce the documented examples before any check trusts it
 import os
